@@ -1,5 +1,6 @@
 (* C18 - the monitor accepts every run of the model; model vs model has no diff. *)
-From SC Require Import Lib.Prelude Lib.Int Model.Base64 Model.Verifiers Proofs.Base64 Proofs.Verifiers Run.C18.
+From SC Require Import Lib.Prelude Lib.Int Model.Base64 Model.Verifiers Model.ClientDataSpec
+  Model.SigDataXdrSpec Proofs.Base64 Proofs.Verifiers Run.C18.
 
 Lemma eqb_out_refl : forall o, eqb_out o o = true.
 Proof.
@@ -17,9 +18,41 @@ Proof. intros. unfold step_ok, model_obs. cbn [fst snd]. apply eqb_outcome_refl.
 Lemma spec_type_eq : spec_type = WEBAUTHN_GET.
 Proof. reflexivity. Qed.
 
-Lemma spec_wa_accept_eq : forall c a,
-  spec_wa_accept c a = wa_accept c (a_payload a) (a_ad a) (a_cd a) (a_parsed a) (a_sigok a).
-Proof. intros. unfold spec_wa_accept, wa_accept. rewrite spec_type_eq. reflexivity. Qed.
+Lemma cfg_ok_eq : forall c, cfg_ok c = true -> max_cd c = SPEC_MAX_CD /\ min_ad c = SPEC_MIN_AD.
+Proof. intros c H. unfold cfg_ok in H. apply andb_true_iff in H. destruct H as [A B]. apply Z.eqb_eq in A, B. auto. Qed.
+
+Lemma eqb_parsed_eq : forall x y, eqb_parsed x y = true -> x = y.
+Proof.
+  intros [[t1 c1]|] [[t2 c2]|] H; cbn [eqb_parsed] in H; try discriminate; try reflexivity.
+  apply andb_true_iff in H. destruct H as [A B]. apply eqb_bytes_eq in A, B. subst. reflexivity.
+Qed.
+Lemma spec_parsed_eq : forall a, parsed_agrees a = true -> spec_parsed a = a_parsed a.
+Proof.
+  intros a H. unfold parsed_agrees, spec_parsed in *. destruct (cd_view (a_cd a)) as [p|]; [|reflexivity].
+  apply eqb_parsed_eq. exact H.
+Qed.
+
+Lemma firstn_exact : forall (l : list Z), len l = 32 -> firstn 32 l = l.
+Proof. intros l H. apply firstn_all2. unfold len in H. lia. Qed.
+
+(* the monitor's conjunction (prefix form) is the acceptance condition of the model *)
+Lemma spec_prefix_eq : forall c a, cfg_ok c = true -> parsed_agrees a = true ->
+  spec_wa_accept_prefix a = wa_accept c (a_payload a) (a_ad a) (a_cd a) (a_parsed a) (a_sigok a).
+Proof.
+  intros c a Hc Hp. destruct (cfg_ok_eq c Hc) as [E1 E2].
+  unfold spec_wa_accept_prefix, spec_wa_rest, spec_ch, wa_accept. rewrite (spec_parsed_eq a Hp), E1, E2, spec_type_eq.
+  change (spec_challenge_prefix) with challenge_ok. change spec_flags_ok with flags_ok.
+  destruct (a_parsed a) as [[ty ch]|].
+  - destruct (len (a_cd a) <=? SPEC_MAX_CD), (eqb_bytes ty WEBAUTHN_GET), (SPEC_MIN_AD <=? len (a_ad a)),
+      (match nth_error (a_ad a) 32 with Some f => flags_ok f | None => false end), (a_sigok a),
+      (challenge_ok ch (a_payload a)); reflexivity.
+  - destruct (len (a_cd a) <=? SPEC_MAX_CD); reflexivity.
+Qed.
+Lemma spec_exact_eq : forall a, len (a_payload a) = 32 -> spec_wa_accept a = spec_wa_accept_prefix a.
+Proof.
+  intros a H. unfold spec_wa_accept, spec_wa_accept_prefix, spec_challenge_exact, spec_challenge_prefix.
+  rewrite (firstn_exact _ H), H. reflexivity.
+Qed.
 
 Lemma skipn_repeat : forall (x : Z) k m, skipn k (repeat x m) = repeat x (m - k).
 Proof.
@@ -31,10 +64,12 @@ Qed.
 Lemma enc_len_nonneg : forall n, 0 <= n -> 0 <= enc_len n.
 Proof. intros n H. unfold enc_len. Z.div_mod_to_equations. lia. Qed.
 
-Lemma mon_b64 : forall c dst_len src, 0 <= dst_len -> bytes_ok src = true ->
-  mon_call c (B64 dst_len src) (run_call c (B64 dst_len src)) = true.
+Lemma mon_b64 : forall c dst_len src, wf_call (B64 dst_len src) = true ->
+  mon_call (B64 dst_len src) (run_call c (B64 dst_len src)) = true.
 Proof.
-  intros c d src Hd Hb. cbn [mon_call run_call]. rewrite base64_url_encode_is_encode_into, encode_into_spec.
+  intros c d src W. cbn [wf_call] in W. cbn [mon_call run_call]. rewrite W. cbn [andb].
+  apply andb_true_iff in W. destruct W as [Hd Hb]. apply Z.leb_le in Hd.
+  rewrite base64_url_encode_is_encode_into, encode_into_spec.
   rewrite repeat_length. rewrite encode_length_nat. fold (len src).
   set (n := enc_len (len src)).
   assert (Hn : 0 <= n) by (apply enc_len_nonneg, len_nonneg).
@@ -47,81 +82,151 @@ Proof.
     reflexivity.
 Qed.
 
-Lemma mon_extract : forall c n sb eb data,
-  mon_call c (Extract n sb eb data) (run_call c (Extract n sb eb data)) = true.
+Lemma in_u32_range : forall k, in_u32 k = true -> 0 <= k <= 4294967295.
+Proof. intros k H. unfold in_u32 in H. apply andb_true_iff in H. destruct H as [A B]. apply Z.leb_le in A, B. change MAXU32 with 4294967295 in B. lia. Qed.
+
+Ltac zb :=
+  repeat match goal with
+  | |- context [?a <=? ?b] => destruct (Z.leb_spec a b)
+  | |- context [?a <? ?b] => destruct (Z.ltb_spec a b)
+  | |- context [?a =? ?b] => destruct (Z.eqb_spec a b)
+  end.
+
+Lemma mon_extract : forall c n sb eb data, wf_call (Extract n sb eb data) = true ->
+  mon_call (Extract n sb eb data) (run_call c (Extract n sb eb data)) = true.
 Proof.
-  intros c n sb eb data. cbn [mon_call run_call].
-  destruct sb as [|s|s]; try reflexivity. destruct eb as [|e|e]; try reflexivity.
-  destruct ((0 <=? s) && (s <=? e) && (e <=? MAXU32)) eqn:G; [|reflexivity].
-  apply andb_true_iff in G. destruct G as [G G3]. apply andb_true_iff in G. destruct G as [G1 G2].
-  apply Z.leb_le in G1, G2, G3.
-  rewrite extract_range by assumption. cbn [lift bind].
-  destruct ((e <=? len data) && (e - s =? n)); [apply eqb_bytes_refl | reflexivity].
+  intros c n sb eb data W. cbn [wf_call] in W. cbn [mon_call run_call]. rewrite W. cbn [andb].
+  apply andb_true_iff in W. destruct W as [W Wl]. apply andb_true_iff in W. destruct W as [Ws We].
+  apply Z.leb_le in Wl. change MAXU32 with 4294967295 in Wl.
+  pose proof (len_nonneg data) as Hl.
+  unfold extract_from_bytes.
+  destruct sb as [|s|s]; destruct eb as [|e|e]; cbn [bound_u32] in Ws, We;
+    try (apply in_u32_range in Ws); try (apply in_u32_range in We);
+    cbn [range_start range_end bind of_option];
+    unfold checked_add_u32, in_u32, slice; change MAXU32 with 4294967295;
+    cbn [andb negb lift bind of_option];
+    repeat (progress (zb; cbn [andb negb lift bind of_option orb]));
+    try reflexivity; try lia; try (exfalso; lia);
+    try (match goal with |- eqb_bytes ?x ?y = true => replace y with x; [apply eqb_bytes_refl | repeat f_equal; lia] end).
 Qed.
 
-Lemma mon_flags : forall c f, mon_call c (Flags f) (run_call c (Flags f)) = true.
+Lemma up_spec : forall f, validate_user_present_bit_set f = guard (spec_up f).
 Proof.
-  intros c f. cbn [mon_call run_call]. rewrite flag_validators.
+  intro f. unfold validate_user_present_bit_set, spec_up. change FLAGS_UP with (2 ^ 0).
+  rewrite land_pow2_eqb0 by lia. rewrite negb_involutive. reflexivity.
+Qed.
+Lemma uv_spec : forall f, validate_user_verified_bit_set f = guard (spec_uv f).
+Proof.
+  intro f. unfold validate_user_verified_bit_set, spec_uv. change FLAGS_UV with (2 ^ 2).
+  rewrite land_pow2_eqb0 by lia. rewrite negb_involutive. reflexivity.
+Qed.
+Lemma backup_spec : forall f, validate_backup_eligibility_and_state f = guard (spec_backup f).
+Proof.
+  intro f. unfold validate_backup_eligibility_and_state, spec_backup.
+  change FLAGS_BE with (2 ^ 3). change FLAGS_BS with (2 ^ 4).
+  rewrite !land_pow2_eqb0 by lia. rewrite negb_involutive. reflexivity.
+Qed.
+
+Lemma mon_flags : forall c f, is_byte f = true -> mon_call (Flags f) (run_call c (Flags f)) = true.
+Proof.
+  intros c f W. cbn [mon_call run_call]. rewrite W. cbn [andb]. rewrite flag_validators.
   change (spec_flags_ok f) with (flags_ok f). destruct (flags_ok f); reflexivity.
 Qed.
+Lemma mon_flagone : forall c w f, is_byte f = true -> mon_call (FlagOne w f) (run_call c (FlagOne w f)) = true.
+Proof.
+  intros c w f W. cbn [mon_call run_call]. rewrite W. cbn [andb].
+  destruct (w =? 0); [rewrite up_spec; destruct (spec_up f); reflexivity|].
+  destruct (w =? 1); [rewrite uv_spec; destruct (spec_uv f); reflexivity|].
+  rewrite backup_spec; destruct (spec_backup f); reflexivity.
+Qed.
 
-Lemma mon_type : forall c ty, mon_call c (TypeChk ty) (run_call c (TypeChk ty)) = true.
+Lemma mon_type : forall c ty, mon_call (TypeChk ty) (run_call c (TypeChk ty)) = true.
 Proof.
   intros c ty. cbn [mon_call run_call]. rewrite validate_type_spec, spec_type_eq.
   destruct (eqb_bytes ty WEBAUTHN_GET); reflexivity.
 Qed.
 
 Lemma mon_challenge : forall c ch p, bytes_ok p = true ->
-  mon_call c (Challenge ch p) (run_call c (Challenge ch p)) = true.
+  mon_call (Challenge ch p) (run_call c (Challenge ch p)) = true.
 Proof.
-  intros c ch p Hb. cbn [mon_call run_call]. rewrite validate_challenge_spec by exact Hb.
-  change (spec_challenge_ok ch p) with (challenge_ok ch p). destruct (challenge_ok ch p); reflexivity.
+  intros c ch p Hb. cbn [mon_call run_call]. rewrite Hb. cbn [andb].
+  rewrite validate_challenge_spec by exact Hb.
+  destruct (Z.eqb_spec (len p) 32) as [E|E].
+  - unfold challenge_ok, spec_challenge_exact. rewrite (firstn_exact _ E), E. cbn [Z.leb Z.eqb andb].
+    change (32 <=? 32) with true. change (32 =? 32) with true. cbn [andb].
+    destruct (eqb_bytes ch (rfc4648_url_nopad p)); reflexivity.
+  - change (spec_challenge_prefix ch p) with (challenge_ok ch p). destruct (challenge_ok ch p); reflexivity.
 Qed.
 
-Lemma expect_model : forall e b,
-  expect_agrees e b = true -> expect_ok e (lift OBool (if b then Ok true else Fail)) = true.
-Proof. intros [[|]|] [|]; cbn; congruence. Qed.
-
-Lemma mon_walib : forall c a, wf_call c (WaLib a) = true ->
-  mon_call c (WaLib a) (run_call c (WaLib a)) = true.
+Lemma verdict_model : forall a pre (acc : bool),
+  (if len (a_payload a) =? 32 then acc = (pre && spec_wa_accept a) else acc = (pre && spec_wa_accept_prefix a)) ->
+  wa_expect_wf a pre = true ->
+  wa_verdict a pre (lift OBool (if acc then Ok true else Fail)) = true /\
+  expect_ok (a_expect a) (lift OBool (if acc then Ok true else Fail)) = true.
 Proof.
-  intros c a W. cbn [wf_call] in W. apply andb_true_iff in W. destruct W as [W We].
-  apply andb_true_iff in W. destruct W as [Wp _].
-  cbn [mon_call run_call]. rewrite wa_decide_spec by exact Wp. rewrite <- spec_wa_accept_eq.
-  rewrite (expect_model _ _ We). destruct (spec_wa_accept c a); reflexivity.
+  intros a pre acc H We. unfold wa_verdict, wa_expect_wf in *.
+  destruct (len (a_payload a) =? 32); subst acc.
+  - destruct (pre && spec_wa_accept a); destruct (a_expect a) as [[|]|]; cbn in *; auto; discriminate.
+  - destruct (pre && spec_wa_accept_prefix a); destruct (a_expect a) as [[|]|]; cbn in *; auto; discriminate.
 Qed.
 
-Lemma mon_waex : forall c kd d a, wf_call c (WaEx kd d a) = true ->
-  mon_call c (WaEx kd d a) (run_call c (WaEx kd d a)) = true.
+Lemma mon_walib : forall c a, cfg_ok c = true -> wf_call (WaLib a) = true ->
+  mon_call (WaLib a) (run_call c (WaLib a)) = true.
 Proof.
-  intros c kd d a W. cbn [wf_call] in W. apply andb_true_iff in W. destruct W as [W We].
-  apply andb_true_iff in W. destruct W as [W Wk]. apply andb_true_iff in W. destruct W as [Wp _].
-  cbn [mon_call run_call]. rewrite wa_contract_decide_unfold.
-  destruct d; cbn [andb] in *.
-  - destruct (65 <=? len kd); cbn [andb negb orb] in *.
-    + rewrite Wk. cbn [andb]. rewrite wa_decide_spec by exact Wp. rewrite <- spec_wa_accept_eq.
-      rewrite (expect_model _ _ We). destruct (spec_wa_accept c a); reflexivity.
-    + rewrite (expect_model _ false We). reflexivity.
-  - rewrite (expect_model _ false We). reflexivity.
+  intros c a Hc W. cbn [wf_call] in W. apply andb_true_iff in W. destruct W as [W We].
+  cbn [mon_call run_call]. rewrite W. cbn [andb].
+  apply andb_true_iff in W. destruct W as [W _]. apply andb_true_iff in W. destruct W as [W _].
+  apply andb_true_iff in W. destruct W as [Wp Wa].
+  rewrite wa_decide_spec by exact Wp. rewrite <- (spec_prefix_eq c a Hc Wa).
+  destruct (verdict_model a true (spec_wa_accept_prefix a)) as [V X]; [|exact We|].
+  - destruct (Z.eqb_spec (len (a_payload a)) 32) as [E|E]; cbn [andb]; [rewrite spec_exact_eq by exact E|]; reflexivity.
+  - rewrite V, X. reflexivity.
 Qed.
 
-Lemma mon_ed : forall sigok e, expect_agrees e sigok = true ->
-  verdict_shape (lift OBool (ed_decide sigok)) && Bool.eqb (is_accept (lift OBool (ed_decide sigok))) sigok
+Lemma mon_waex : forall c kd sd d a, cfg_ok c = true -> wf_call (WaEx kd sd d a) = true ->
+  mon_call (WaEx kd sd d a) (run_call c (WaEx kd sd d a)) = true.
+Proof.
+  intros c kd sd d a Hc W. cbn [wf_call] in W. apply andb_true_iff in W. destruct W as [W We].
+  cbn [mon_call run_call]. rewrite W. cbn [andb].
+  apply andb_true_iff in W. destruct W as [W _]. apply andb_true_iff in W. destruct W as [W _].
+  apply andb_true_iff in W. destruct W as [W _]. apply andb_true_iff in W. destruct W as [W _].
+  apply andb_true_iff in W. destruct W as [Wp Wa].
+  rewrite wa_contract_decide_unfold.
+  set (pre := d && (65 <=? len kd)) in *.
+  assert (R : (match (if d then Some (a_sig a, a_ad a, a_cd a) else None) with
+               | None => Fail
+               | Some (_, ad, cd) => if 65 <=? len kd then wa_decide c (a_payload a) ad cd (a_parsed a) (a_sigok a) else Fail
+               end) = if pre && spec_wa_accept_prefix a then Ok true else Fail).
+  { unfold pre. destruct d; cbn [andb]; [|reflexivity].
+    destruct (65 <=? len kd); cbn [andb]; [|reflexivity].
+    rewrite wa_decide_spec by exact Wp. rewrite <- (spec_prefix_eq c a Hc Wa). reflexivity. }
+  rewrite R.
+  destruct (verdict_model a pre (pre && spec_wa_accept_prefix a)) as [V X]; [|exact We|].
+  - destruct (Z.eqb_spec (len (a_payload a)) 32) as [E|E]; [rewrite spec_exact_eq by exact E|]; reflexivity.
+  - rewrite V, X. reflexivity.
+Qed.
+
+Lemma mon_ed : forall key sig sigok e, ed_sizes_ok key sig sigok && expect_agrees e sigok = true ->
+  ed_sizes_ok key sig sigok
+  && verdict_shape (lift OBool (ed_decide sigok)) && Bool.eqb (is_accept (lift OBool (ed_decide sigok))) sigok
   && expect_ok e (lift OBool (ed_decide sigok)) = true.
-Proof. intros [|] [[|]|]; cbn; congruence. Qed.
-
-Lemma mon_ok_model : forall c k, wf_call c k = true -> mon_ok c (model_obs c k) = true.
 Proof.
-  intros c k W. unfold mon_ok, model_obs. cbn [fst snd].
-  destruct k as [d src|n sb eb data|f|ty|ch p|a|kd d a|p k s so e|p k s so e].
-  - cbn [wf_call] in W. apply andb_true_iff in W. destruct W as [W1 W2]. apply Z.leb_le in W1.
-    apply mon_b64; assumption.
-  - apply mon_extract.
-  - apply mon_flags.
+  intros key sig sigok e H. apply andb_true_iff in H. destruct H as [H1 H2]. rewrite H1.
+  destruct sigok, e as [[|]|]; cbn in *; congruence.
+Qed.
+
+Lemma mon_ok_model : forall c k, cfg_ok c = true -> wf_call k = true -> mon_ok (model_obs c k) = true.
+Proof.
+  intros c k Hc W. unfold mon_ok, model_obs. cbn [fst snd].
+  destruct k as [d src|n sb eb data|f|w f|ty|ch p|a|kd sd d a|p k s so e|p k s so e].
+  - apply mon_b64; assumption.
+  - apply mon_extract. exact W.
+  - apply mon_flags. exact W.
+  - apply mon_flagone. exact W.
   - apply mon_type.
   - apply mon_challenge. exact W.
-  - apply mon_walib. exact W.
-  - apply mon_waex. exact W.
+  - apply mon_walib; assumption.
+  - apply mon_waex; assumption.
   - cbn [mon_call run_call]. apply mon_ed. exact W.
   - cbn [mon_call run_call]. apply mon_ed. exact W.
 Qed.
@@ -133,11 +238,20 @@ Proof.
   cbn [first_false]. rewrite (H x (or_introl eq_refl)). apply IH. intros y Hy. apply H. right. exact Hy.
 Qed.
 
-Theorem check_accepts_model : forall (c : cfg) (cs : list call),
-  forallb (wf_call c) cs = true -> check (c, map (model_obs c) cs) = (0%N, 0%N, 0%N).
+Lemma mon_from_model : forall c cs seen i, cfg_ok c = true -> wf_calls seen cs = true ->
+  mon_from c seen (map (model_obs c) cs) i = 0%N.
 Proof.
-  intros c cs W. unfold check. rewrite forallb_forall in W.
-  rewrite !first_false_all; [reflexivity | |].
-  - intros x Hx. apply in_map_iff in Hx. destruct Hx as (k & <- & Hk). apply mon_ok_model. apply W. exact Hk.
-  - intros x Hx. apply in_map_iff in Hx. destruct Hx as (k & <- & Hk). apply step_ok_model.
+  intros c cs. induction cs as [|k r IH]; intros seen i Hc W; [reflexivity|].
+  cbn [wf_calls] in W. apply andb_true_iff in W. destruct W as [W Wr]. apply andb_true_iff in W. destruct W as [Wk Wc].
+  cbn [map mon_from]. rewrite Hc, (mon_ok_model c k Hc Wk). cbn [model_obs fst andb]. rewrite Wc.
+  apply IH; assumption.
+Qed.
+
+Theorem check_accepts_model : forall (c : cfg) (cs : list call),
+  wf_trace c cs = true -> check (c, map (model_obs c) cs) = (0%N, 0%N, 0%N).
+Proof.
+  intros c cs W. unfold wf_trace in W. apply andb_true_iff in W. destruct W as [Hc W]. unfold check.
+  rewrite (mon_from_model c cs [] 0%N Hc W).
+  rewrite first_false_all; [reflexivity|].
+  intros x Hx. apply in_map_iff in Hx. destruct Hx as (k & <- & Hk). apply step_ok_model.
 Qed.
